@@ -42,6 +42,9 @@ CLAIMED = {
  "C08": ("Hypothesis op-list histories of post-fit queries on fitted problems, state invariant against the post-fit snapshot",
          "Generated-input search over histories (with repetition) of covariance / correlation / Hessian / asymmetric errors / profiles by sigma, cl, low+high / contours / error band / report / result dict / plot / to_file / save_state on fitted linear and nonlinear problems with fixed, limited and constrained parameters for both backends: after every query parameter values (0.02 sigma), cost (1e-2), uncertainties (2 %), did_fit, minimizer-vs-graph parameter values and 'reported cost == reference cost at the held parameters' are compared with the snapshot taken right after do_fit (no cumulative drift); queries that raise must leave the state unchanged too; repeated questions must give the same answer.",
          "Trusts the reference cost for the consistency facet; fits within 2 sigma of a limit are discarded; scipy contours only in the thorough tier.", "DESIGN.md §4 C08"),
+ "C03": ("Hypothesis op-list histories over all public mutators and reads of all public read-only properties; differential against a fresh fit built from the folded configuration",
+         "Generated-input search: the harness folds each generated history (add/disable/enable sources, constraints, set/fix/release/limit/unlimit parameters, data replacement by array or container with or without sources, do_fit, reads anywhere) into a configuration spec; for every read a fresh fit is built from that configuration through the public API with no intermediate reads and asked for the same observable first; 30-64 observables per fit type are compared at rounding precision, minimisation results at MINIMIZER tolerance when no mutator followed the last do_fit; a final sweep reads every observable.",
+         "Reference = kafe2 itself in a fresh object (the property is stated as this differential); configuration semantics for data replacement documented in ASSUMPTIONS; non-PD checkpoints skipped and counted.", "DESIGN.md §4 C03"),
 }
 NOT_YET = "check not built yet in this session (work in progress; see DESIGN.md §10 build order)"
 
